@@ -49,6 +49,8 @@ type travModel struct {
 	GT    int64
 	// results
 	okCmp, okLvl, okEff bool
+	lvFields            map[string]bool
+	startChecked        bool
 	nTests              int
 	probe               bool // first pass: only collect the index offset, report nothing
 	cIdx                *int64
@@ -337,12 +339,12 @@ func (m *travModel) failEff(pos tokenPosT, format string, a ...any) {
 }
 
 // traversalRule decides the three traversal obligations for fn; returns the normal form of the advance condition.
-func traversalRule(c *core.Ctx, name string, fn *ssa.Function, LT, GT int64) string {
+func traversalRule(c *core.Ctx, name string, fn *ssa.Function, LT, GT int64, lvFields map[string]bool) string {
 	an := c.AnalyzeLoops(fn)
 	if problems(c, "compare-normal-form", name, an) {
 		return ""
 	}
-	m := &travModel{c: c, name: name, fn: fn, an: an, node: map[*ssa.BasicBlock]*ssa.Phi{}, nx: map[*ssa.BasicBlock]*ssa.Phi{}, cc: map[*ssa.BasicBlock]*ssa.Phi{}, ccOff: map[*ssa.BasicBlock]int64{}, ghost: map[*ssa.BasicBlock]bool{}, LT: LT, GT: GT, okCmp: true, okLvl: true, okEff: true}
+	m := &travModel{c: c, name: name, fn: fn, an: an, node: map[*ssa.BasicBlock]*ssa.Phi{}, nx: map[*ssa.BasicBlock]*ssa.Phi{}, cc: map[*ssa.BasicBlock]*ssa.Phi{}, ccOff: map[*ssa.BasicBlock]int64{}, ghost: map[*ssa.BasicBlock]bool{}, LT: LT, GT: GT, lvFields: lvFields, okCmp: true, okLvl: true, okEff: true}
 	second := map[*ssa.BasicBlock]*ssa.Phi{}
 	if len(an.Headers) == 0 {
 		c.Undecided("level-loops", name, fn.Pos(), "the traversal has no loop")
@@ -560,12 +562,16 @@ func traversalRule(c *core.Ctx, name string, fn *ssa.Function, LT, GT int64) str
 		form = "node key < key"
 		c.Ok("compare-normal-form", name, fn.Pos(), "advance iff the level's successor is non-nil and its key < the search key")
 	}
+	if m.okLvl && !m.startChecked {
+		m.okLvl = false
+		c.Undecided("level-loops", name, fn.Pos(), "no entry segment reaches the level loop: the starting level cannot be judged")
+	}
 	if m.okLvl {
 		off := int64(0)
 		if m.cIdx != nil {
 			off = *m.cIdx
 		}
-		c.Ok("level-loops", name, fn.Pos(), fmt.Sprintf("index = counter%+d; a pass begins iff index >= 0; stop => counter-1; less => counter unchanged", off))
+		c.Ok("level-loops", name, fn.Pos(), fmt.Sprintf("first index = levels-1; index = counter%+d; a pass begins iff index >= 0; stop => counter-1; less => counter unchanged", off))
 	}
 	if m.okEff {
 		c.Ok("traversal-effects", name, fn.Pos(), "less: cursor := successor; stop: cursor kept (path[index] := cursor when recording); result = level-0 successor of the final cursor")
@@ -792,6 +798,21 @@ func (m *travModel) segment(p *ir.Path, list, head, pathT *ir.Term, recordsPath 
 				if x2 != nil && !ir.Same(x2, fingersOf(head)) {
 					m.failEff(lastPos(p), "the cached finger slice starts as %s, expected head.fingers", short(x2))
 				}
+				// the traversal starts on the top level: first index = (number of levels) - 1, the number of levels being
+				// what the constructor made the length of head.fingers and of the insertion path (kept in a field of the
+				// list). Starting lower leaves the upper entries of the path stale (Put of a tall node splices at the
+				// predecessors of an earlier key, Remove leaves the node linked up there); starting higher indexes
+				// head.fingers out of range.
+				if !m.probe && m.cIdx != nil {
+					m.startChecked = true
+					ok := false
+					if L, k := splitLin(l2); L != nil && k+*m.cIdx == -1 && m.isLevelCount(L, list, head, pathT) {
+						ok = true
+					}
+					if !ok {
+						m.failLvl(lastPos(p), "the traversal starts at index %s%+d, expected the top level (number of levels - 1, the number of levels being len(head.fingers) = len(path) as the constructor makes them): levels above the start are never traversed and their path entries stay stale", short(l2), *m.cIdx)
+					}
+				}
 			}
 		} else if to != nil {
 			if !ir.Same(n2, n) {
@@ -955,4 +976,47 @@ func tallyOnly(v ssa.Value, seen map[ssa.Value]bool) bool {
 		}
 	}
 	return true
+}
+
+// splitLin writes t as base + k (k an integer constant); base is nil when t is a constant.
+func splitLin(t *ir.Term) (*ir.Term, int64) {
+	if t == nil {
+		return nil, 0
+	}
+	if _, isK := t.IntConst(); isK {
+		return nil, 0
+	}
+	if t.Op == "bin" && len(t.Args) == 2 {
+		switch t.Aux {
+		case "+":
+			for i := 0; i < 2; i++ {
+				if v, isK := t.Args[i].IntConst(); isK {
+					b, k := splitLin(t.Args[1-i])
+					return b, k + v
+				}
+			}
+		case "-":
+			if v, isK := t.Args[1].IntConst(); isK {
+				b, k := splitLin(t.Args[0])
+				return b, k - v
+			}
+		}
+	}
+	return t, 0
+}
+
+// isLevelCount: L stands for the list's number of levels - len(head.fingers), len(path), or the constructor's level
+// field read from the list (directly or through a parameter struct nested in it).
+func (m *travModel) isLevelCount(L, list, head, pathT *ir.Term) bool {
+	if L.Op == "len" && len(L.Args) == 1 && (ir.Same(L.Args[0], fingersOf(head)) || ir.Same(L.Args[0], pathT)) {
+		return true
+	}
+	if L.Op == "load" && len(L.Args) == 1 && L.Args[0].Op == "faddr" && m.lvFields[L.Args[0].Aux] {
+		b := L.Args[0].Args[0]
+		for b.Op == "faddr" && len(b.Args) == 1 {
+			b = b.Args[0]
+		}
+		return ir.Same(b, list)
+	}
+	return false
 }
